@@ -22,8 +22,37 @@ pub struct Case {
 /// Recorded panics are listed in known_findings.json with `panic_file` (path suffix) and
 /// `panic_message_prefix`. Matching is on the file and the beginning of the message, never on
 /// the line number.
+/// name of the function that encloses `line` of `file` (nearest preceding `fn name`), read from the
+/// source tree under test; panic signatures carry it so that a generic message (`unwrap()` on None)
+/// in a large file is still one site, independent of line shifts
+pub fn enclosing_fn(file: &str, line: u32) -> String {
+    use std::collections::HashMap;
+    use std::sync::{Mutex, OnceLock};
+    static CACHE: OnceLock<Mutex<HashMap<String, Vec<String>>>> = OnceLock::new();
+    let cache = CACHE.get_or_init(Default::default);
+    let mut c = cache.lock().unwrap();
+    let lines = c.entry(file.to_string()).or_insert_with(|| std::fs::read_to_string(file).map(|t| t.lines().map(|l| l.to_string()).collect()).unwrap_or_default());
+    static RE: OnceLock<regex::Regex> = OnceLock::new();
+    let re = RE.get_or_init(|| regex::Regex::new(r"\bfn\s+([A-Za-z_][A-Za-z0-9_]*)").unwrap());
+    let mut i = (line as usize).min(lines.len());
+    while i > 0 {
+        i -= 1;
+        if let Some(m) = re.captures(&lines[i]) {
+            return m[1].to_string();
+        }
+    }
+    String::new()
+}
+
 fn classify(p: &PanicInfo, known: &Known, case: &Case) -> Option<String> {
     for e in &known.entries {
+        // optional: the function(s) the panic is raised in
+        if let Some(fns) = e.get("panic_fn").and_then(|x| x.as_array()) {
+            let f = enclosing_fn(&p.file, p.line);
+            if !fns.iter().any(|x| x.as_str() == Some(f.as_str())) {
+                continue;
+            }
+        }
         // optional narrowing of a signature whose message is generic (`unwrap()` on None ...): the
         // kind of input and a text the input must contain
         if let Some(k) = e.get("input_kind").and_then(|x| x.as_str()) {
@@ -665,6 +694,7 @@ fn judge_driven(case: &Case, panic: Option<(String, PanicInfo)>, reached: &str, 
         match classify(&p, known, case) {
             Some(id) => {
                 out.verdict = Verdict::Known(id, format!("{} panics at {}: {}", stage, p.file, p.message.chars().take(80).collect::<String>()));
+                out.classes.push(format!("known_panic_fn:{}:{}", p.file.rsplit('/').next().unwrap_or(""), enclosing_fn(&p.file, p.line)));
             }
             None if std::env::var("C12_DISCOVER").is_ok() => {
                 // catalogue mode (not used by the registered checks): list distinct unknown panics
